@@ -630,6 +630,9 @@ typedef struct ares_event_thread ares_event_thread_t;
 
 void          ares_event_thread_destroy(ares_channel_t *channel);
 ares_status_t ares_event_thread_init(ares_channel_t *channel);
+/*! A query was handed to the channel outside of the event thread's own
+ *  processing: make the event thread recompute how long it may sleep. */
+void          ares_event_thread_query_enqueued(const ares_channel_t *channel);
 
 
 #ifdef _WIN32
